@@ -51,6 +51,14 @@ def run_row(case, ctx):
 	rnd = random.Random(case['seed'])
 	values = [taxgen.f32(v) for v in case['values']]
 	dists = [rnd.choice(values) for _ in range(n)]
+	if case.get('min_from') and len(set(dists)) >= 2:
+		# the minimum distance only occurs late in the reference order (position >= min_from): earlier occurrences get the next value
+		p0 = min(case['min_from'], max(n - 2, 0))
+		lo = min(dists)
+		nxt = min(v for v in dists if v > lo)
+		dists = [nxt if (i < p0 and v == lo) else v for i, v in enumerate(dists)]
+		if lo not in dists[p0:]:
+			dists[p0:p0 + 2] = [lo] * len(dists[p0:p0 + 2])
 	taxa = taxgen.resolve_thresholds(case['taxa'], dists)
 	F = Forest(taxa)
 	genome_taxa = [rnd.randrange(len(taxa)) for _ in range(n)]
@@ -87,7 +95,7 @@ def run_row(case, ctx):
 	lim = min(N + 1, n)
 	full = sorted(range(n), key=lambda i: (dists[i], i))[:lim]
 	tie = any(dists[a] == dists[b] for a, b in zip(full, full[1:]))
-	classes = ['row', 'n>16' if n > 16 else 'n<=16']
+	classes = ['row', 'n>16' if n > 16 else 'n<=16'] + (['closest_index>=257'] if exp and exp[0] >= 257 else [])
 	if dists.count(min(dists)) > 1:
 		classes.append('tie_at_min')
 	if N < n and dists[full[N - 1]] == dists[full[N]] if N < len(full) else False:
@@ -250,8 +258,8 @@ def run_subproc(case, ctx):
 def gen_case(draw, tier):
 	which = draw(st.sampled_from(['row'] * 12 + ['world'] * 3 + (['subproc'] if tier == 'thorough' else [])))
 	if which == 'row':
-		n = draw(st.one_of(st.integers(1, 16), st.integers(17, 100), st.integers(17, 1000)))
-		return {'kind': 'row', 'n': n, 'seed': draw(st.integers(0, 2 ** 20)),
+		n = draw(st.one_of(st.integers(1, 16), st.integers(17, 100), st.integers(17, 1000), st.integers(258, 1200)))
+		return {'kind': 'row', 'n': n, 'seed': draw(st.integers(0, 2 ** 20)), 'min_from': draw(st.sampled_from([None, None, 257, 300, 130, 1000])),
 		        'values': draw(st.lists(taxgen.DIST, min_size=2, max_size=5)),
 		        'taxa': draw(taxgen.forest(max_taxa=6)),
 		        'report_closest': draw(st.sampled_from([10, 1, 2, 3, 'n', 'n+5'])),
